@@ -184,8 +184,43 @@ func withMP(req M, kv M) M {
 	return r
 }
 
+// twinCorpus: for every method a request of exactly the shape of the root request (same ids, same sizes, same options)
+// but with the alternatives' values rotated and other weights, alone and under a criterion-adding + omission chain, plus a
+// shorter request (two criteria, two alternatives) with the same ids. Anything remembered per id / per shape from an
+// earlier request (a memo table, a pooled buffer, a lazily built lookup) shows as history dependence between the root
+// request, its twin and the shorter one.
+func twinCorpus() []CorpusReq {
+	var out []CorpusReq
+	core := biasAlphabet(0)
+	for _, m := range allMethods {
+		root := rootRequest(m, false, false)
+		twin := asM(deepCopy(root))
+		ka := asL(twin["knownAlternatives"])
+		first := asM(ka[0])["criteria"]
+		for i := 0; i+1 < len(ka); i++ {
+			asM(ka[i])["criteria"] = asM(ka[i+1])["criteria"]
+		}
+		asM(ka[len(ka)-1])["criteria"] = first
+		mp := methodParams(m, critIDs(3), map[string]float64{"c1": 3, "c2": 1, "c3": 2}, false)
+		for k, v := range asM(root["methodParameters"]) {
+			if _, has := mp[k]; !has {
+				mp[k] = v
+			}
+		}
+		twin["methodParameters"] = mp
+		out = append(out, CorpusReq{Name: "twin/" + m + "/no-bias", Req: M(twin), Valid: true, Always: true})
+		out = append(out, CorpusReq{Name: "twin/" + m + "/concealment>omission", Req: withBiases(M(twin), []M{core[4], core[0]}), Valid: true, Always: true})
+		short := M{"preferenceFunction": m, "biasApplyRandomSeed": 1, "choseToMake": L{"b", "a"},
+			"criteria":          L{asL(root["criteria"])[0], asL(root["criteria"])[2]},
+			"knownAlternatives": L{alt("a", map[string]float64{"c1": 2, "c3": 1}), alt("b", map[string]float64{"c1": 1, "c3": 2})},
+			"methodParameters":  methodParams(m, []string{"c1", "c3"}, map[string]float64{"c1": 1, "c3": 2}, false)}
+		out = append(out, CorpusReq{Name: "twin/" + m + "/shorter", Req: short, Valid: true, Always: true})
+	}
+	return out
+}
+
 func validCorpus(level int) []CorpusReq {
-	out := defaultsCorpus()
+	out := append(defaultsCorpus(), twinCorpus()...)
 	alpha := biasAlphabet(level)
 	for _, m := range allMethods {
 		for _, sub := range []bool{false, true} {
